@@ -199,6 +199,31 @@ def _eff(arm):
     return every, some, ends
 
 
+
+def _raises_own_error(nodes, cls):
+    """The path ends by raising the error class the broker named (error_type(...), directly or through a local bound to it)."""
+    rs = [n for n in nodes if n.kind == "raise"]
+    if not rs:
+        return False
+    x = rs[-1].ast.exc
+    if x is None:
+        return False
+
+    def own(e):
+        if isinstance(e, ast.Call):
+            e = e.func
+        return unparse(e) in ("error_type", "error", f"Errors.{cls}", cls)
+    if own(x):
+        return True
+    if isinstance(x, ast.Name):
+        i = nodes.index(rs[-1])
+        for n in reversed(nodes[:i]):
+            if n.kind == "store" and isinstance(n.ast, ast.Name) and n.ast.id == x.id:
+                v = getattr(n.stmt, "value", None)
+                return v is not None and own(v)
+    return False
+
+
 def rule_error_tables(ctx):
     R = "error-effects"
     ctx.rep.rule(R, "error -> effect tables of the five group handlers (join, sync, heartbeat, offset-commit, offset-fetch), cross-checked: "
@@ -252,9 +277,18 @@ def rule_error_tables(ctx):
             ok = every == sorted(calls) and some == sorted(calls)
             if end == "raise":
                 ok = ok and all(e.startswith("raise:") for e in ends)
+                # ... with the error of ITS arm (the class the broker named), not the catch-all's wrapped KafkaError
+                ok = ok and all(_raises_own_error(ns, cls) for _c, t_, ns in a.paths if t_.startswith("raise:"))
             elif end is not None:
                 ok = ok and ends == [end]
             ctx.ob(R, fi, a.test, ok, f"{fi.name}: {cls} -> calls on every path {every}, on some path {some}, ends {ends}; expected {sorted(calls)} / {end}", text=f"{fi.name}:{cls}")
+            if q.endswith("._do_commit_offsets"):
+                # what the caller is told: every failed partition is recorded (and raised after the loop), a committed one is not
+                want_st = [] if cls in ("NoError", "TopicAuthorizationFailedError") else ["errored[tp]"]
+                ctx.ob(R, fi, a.test, sorted(a.stores()) == want_st, f"{fi.name}: {cls} records {sorted(a.stores())}, expected {want_st} "
+                                                                     "(a committed partition reported as failed, or a failed one as committed)", text=f"{fi.name}:{cls}:recorded")
+            elif q.endswith("._do_fetch_commit_offsets"):
+                ctx.ob(R, fi, a.test, not a.stores(), f"{fi.name}: the error arm {cls} records {sorted(a.stores())}", text=f"{fi.name}:{cls}:recorded")
         for cls, a in arms.items():
             if cls in table or cls == "<else>":
                 continue
